@@ -1008,6 +1008,8 @@ def expr_fn(
         if tok == "(":
             tok = get_token()
             ret = parse_expr(tok)
+            if isinstance(ret, str):
+                return ret
             tok = get_token()
             if tok != ")":
                 return expr_error(tok)
@@ -1051,6 +1053,9 @@ def expr_fn(
             if isinstance(ret2, str):
                 return ret2
             ret = fn(ret, ret2)
+            if isinstance(ret, str):
+                # error message from the operator (e.g. division by zero)
+                return ret
         unget_token(tok)
         return ret
 
@@ -1106,13 +1111,20 @@ def expr_fn(
         return parse_binary_or(tok)
 
     tok = get_token()
-    ret = parse_expr(tok)
-    if isinstance(ret, str):
-        return ret
-    if isinstance(ret, float):
-        if ret == math.floor(ret):
-            return str(int(ret))
-    return str(ret)
+    try:
+        ret = parse_expr(tok)
+        if isinstance(ret, str):
+            return ret
+        if isinstance(ret, float):
+            if ret == math.floor(ret):
+                return str(int(ret))
+        return str(ret)
+    except (ArithmeticError, ValueError, TypeError) as e:
+        # math domain and range errors, infinite or NaN results, integers
+        # with too many digits to print, non-integer digits for round
+        return '<strong class="error">Expression error: {}</strong>'.format(
+            html.escape(str(e))
+        )
 
 
 def padleft_fn(
